@@ -40,10 +40,11 @@ REQUIRED_THEOREMS = [
     "C05_twoSew3_free", "C05_twoSew3_left", "C05_twoSew3_right", "C05_twoSew3_both", "C05_twoUnsew3_effect",
     "C05_threeSew3_effect", "C05_threeSew3_vertices", "C05_threeUnsew3_effect",
     "C05_vertexId3_is_cell_min", "C05_oneSew3_cells", "C05_oneUnsew3_cells",
+    "C05_edgeId3_is_cell_min", "C05_twoSew3_cells", "C05_twoUnsew3_cells", "C05_threeSew3_faces", "C05_threeSew3_cells",
 ]
 
 SPEC = {
-    "lean_modules": ["Honeycomb.Props.C05", "Honeycomb.Props.C05Cells"],
+    "lean_modules": ["Honeycomb.Props.C05", "Honeycomb.Props.C05Cells", "Honeycomb.Props.C05Cells2"],
     "required_theorems": REQUIRED_THEOREMS,
     "trusted_base": [
         "Lean 4.33 kernel; axioms propext, Classical.choice, Quot.sound only",
@@ -72,12 +73,14 @@ SPEC = {
             "storages VTerm ETerm FTerm CTerm VDef (masks). Oracle on the implementation: see the module docstring. "
             "distinct_nontrivial = distinct implementation transcripts.",
     "not_proved": [
-        "identification of the computed identifiers with cells: PROVED for 1-sew/1-unsew (Props/C05Cells.lean: vertex_id_transac = smallest "
-        "dart of the vertex cell on every WF 3-map; new partition = old one with the cells of the head of l and of r united; the id "
-        "merged into / split from is the smallest dart of the united cell); for 2- and 3-(un)sews (several simultaneous pairs): oracle only",
-        "3-sew / 3-unsew placement is proved as the exact chain of merges/splits relative to the collected id pairs "
-        "(C05_threeSew3_effect, C05_threeUnsew3_effect; under the proviso on the chain: C05_threeSew3_vertices); that the collected "
-        "pairs are the pairs of cells united by the 3-link on closed faces: oracle only",
+        "identification of the computed identifiers with cells: PROVED for 1-sew/1-unsew (Props/C05Cells.lean), for 2-sew/2-unsew with "
+        "closed faces (Props/C05Cells2.lean: C05_twoSew3_cells, C05_twoUnsew3_cells — vertex partition = old one with l-β1 r and r-β1 l "
+        "united, edge partition with l-r united, every id a cell minimum, new ids = min of the old ones under the proviso) and for 3-sew "
+        "of closed faces (C05_threeSew3_faces, C05_threeSew3_cells: three_link links exactly the pairs (β1^t ld, β0^t rd); the zipped "
+        "face walks list exactly these pairs; face/edge/vertex partitions = old ones with the stated pairs united; the collected ids are "
+        "cell minima pair by pair; under the proviso the merged-into id is the minimum of the united cell). NOT proved: the same for "
+        "3-unsew (chain C05_threeUnsew3_effect only), for open faces, and that the cell-level proviso implies the id-level one "
+        "(`Disj`) used by C05_threeSew3_vertices — the two are stated separately; oracle for the rest",
         "ring-closing configurations where a cell takes part in two identifications of one call, and every other such configuration: "
         "correspondence only (the data clause of the oracle is skipped there, counted as skipped-multi)",
         "D13 (1-sew/1-unsew of a dart of a 3-sewn face misplaced the vertex data: vertex_id_transac was not symmetric on the open "
